@@ -163,6 +163,24 @@ def run(ctx):
     else:
         ctx.violate("R3", "volume() does not end in raise ValueError for unsupported shapes", vf, last)
     ctx.floor("R3", len(rets), 3, "return statements of volume")
+    # the value is built from rotation invariants of whole vectors: selecting Cartesian components (a tuple index or a
+    # second subscript on the vector array) makes the result depend on the orientation of the cell
+    vparam = vf.posparams[0]
+    comp = []
+    for n in vf.own_nodes():
+        if isinstance(n, ast.Subscript) and isinstance(n.ctx, ast.Load):
+            base = n.value
+            if isinstance(base, ast.Name) and base.id == vparam and isinstance(n.slice, ast.Tuple):
+                comp.append(n)
+            elif isinstance(base, ast.Subscript) and isinstance(base.value, ast.Name) and base.value.id == vparam:
+                comp.append(n)
+            elif isinstance(base, ast.Attribute) and base.attr == "T" and isinstance(base.value, ast.Name) and base.value.id == vparam:
+                comp.append(n)
+    if comp:
+        for n in comp:
+            ctx.violate("R3", f"volume() selects Cartesian components `{src_of(n)}`: the result is no longer invariant under rotation of the cell (a slab that is not in the xy-plane gets a wrong area)", vf, n)
+    else:
+        ctx.ok("R3", "volume() uses whole cell vectors only (norm, cross, det): no Cartesian component is singled out", vf.where)
 
     # ------------------------------------------------------------------ R4
     ctx.rule("R4", "check_dm tests both bounds with its parameters", "a one-sided or constant bound accepts out-of-range occupations")
